@@ -244,19 +244,11 @@ func TestC12Concurrent(t *testing.T) {
 
 		before := oracle.SnapshotSchema(ss.Schema)
 
-		// Sequential reference run.
-		want := make([][]string, g)
-
-		for i := range lists {
-			for _, op := range lists[i] {
-				var d string
-				if p := oracle.Try(func() { d = runOp(ss.Schema, ss, op) }); p != nil {
-					t.Fatalf("C12 violated: %s %s", op, p)
-				}
-
-				want[i] = append(want[i], d)
-			}
-		}
+		// The concurrent run comes first, on the freshly built schema, so that
+		// anything built lazily on first use is built under contention. The
+		// sequential reference run uses a twin schema built from the same
+		// description.
+		twin := gen.BuildSchema(append([]gen.TypeSpec{}, ss.Types...))
 
 		// Concurrent run.
 		got := make([][]string, g)
@@ -288,6 +280,20 @@ func TestC12Concurrent(t *testing.T) {
 
 		close(start)
 		wg.Wait()
+
+		// Sequential reference run.
+		want := make([][]string, g)
+
+		for i := range lists {
+			for _, op := range lists[i] {
+				var d string
+				if p := oracle.Try(func() { d = runOp(twin.Schema, twin, op) }); p != nil {
+					t.Fatalf("C12 violated: %s %s", op, p)
+				}
+
+				want[i] = append(want[i], d)
+			}
+		}
 
 		for i := range lists {
 			if panics[i] != "" {
